@@ -267,7 +267,7 @@ fn mem_unchecked(buf: &mut Bytes, total: usize) -> MemPart {
 
 pub fn run_mem(case: &Case, gens: &[GenType], caps: AllocCaps, tag: u64) -> LegOut {
     let total = case.bytes.len();
-    let want_trailer = case.valid_len.is_some();
+    let want_trailer = case.valid_len.map(|n| case.bytes.len() > n).unwrap_or(false);
     let input = Bytes::from(case.bytes.clone());
     let mut buf = input.clone();
     alloc::window_begin(tag, caps.single, caps.window);
@@ -477,7 +477,7 @@ pub fn poll_budget(len: usize, pendings: usize) -> u64 {
 }
 
 pub fn run_stream(case: &Case, gens: &[GenType], caps: AllocCaps, tag: u64) -> LegOut {
-    let want_trailer = case.valid_len.is_some();
+    let want_trailer = case.valid_len.map(|n| case.bytes.len() > n).unwrap_or(false);
     let clock = Clock::new();
     let pos = std::sync::Arc::new(std::sync::atomic::AtomicUsize::new(0));
     let mut ps = PosStream { inner: SimStream::new(case.bytes.clone(), case.sched.clone(), clock.clone()), pos: pos.clone() };
